@@ -383,6 +383,17 @@ class Program:
             return r if isinstance(r, ClassInfo) else None
         return None
 
+    @staticmethod
+    def _is_local_name(fi, name: str) -> bool:
+        """True if ``name`` is a parameter of, or assigned in, the function (it then shadows the module-level import)."""
+        node = getattr(fi, "node", None)
+        if node is None:
+            return False
+        a = node.args
+        if any(x.arg == name for x in a.posonlyargs + a.args + a.kwonlyargs + [y for y in (a.vararg, a.kwarg) if y is not None]):
+            return True
+        return any(isinstance(n, ast.Name) and n.id == name and isinstance(n.ctx, (ast.Store, ast.Del)) for n in ast.walk(node))
+
     def resolve_expr_to_module(self, mi: ModuleInfo, e: ast.expr) -> Optional[ModuleInfo]:
         if isinstance(e, ast.Name):
             r = self.resolve_name(mi, e.id)
@@ -576,6 +587,14 @@ class Program:
                 if isinstance(r, ClassInfo):
                     init = r.find_method("__init__")
                     return ([init] if init else []), "ctor"
+                return [], "external"
+            # module.function(...) on a module imported from outside the package (dataclasses.replace, copy.copy, re.sub ...)
+            root = recv
+            while isinstance(root, ast.Attribute):
+                root = root.value
+            if isinstance(root, ast.Name) and root.id in mi.imports and mi.imports[root.id][1] is None \
+                    and mi.imports[root.id][0].split(".")[0] not in {m_.split(".")[0] for m_ in self.modules} \
+                    and not self._is_local_name(fi, root.id):
                 return [], "external"
             t = self.static_type(fi, recv)
             if t is not None:
